@@ -30,6 +30,14 @@
   (A third one — List_Push_At constructed the new element before it validated the index and leaked it on
   IndexOutOfBoundsError — was repaired in /repo by 4077d96; the model follows the repaired order.)
 
+  Calls with an argument of the WRONG TYPE (`Wrong`: an Int, a String, a Float, a Type object, NULL where a probe element
+  / key / value is expected) are operations of their own (`Op.typed`, section "Type-refused calls"): the type check is
+  the `cast` at the top of Table_Set_Move / Tree_Set / Table_Rem / Tree_Rem — before anything is allocated — and, for
+  Array and List, the stored element's own `Assign` / `Cmp`, which runs AFTER the container made room.  Where the check
+  comes first the refused call is inert; where it comes late the model mirrors what the code leaves behind (Array_Push,
+  Array_Push_At, Array_Concat, Array_New: zero-filled / uninitialised records counted by `len` — the territory of
+  KF-C12-array-push-type and own-array-new-partial; List_Concat: the elements before the wrong one stay).
+
   Core Lean only (the driver links against this file).
 -/
 namespace Cello.Own
@@ -85,6 +93,37 @@ structure Res (α : Type) where
   updated : List Tok := []
   out : Outcome := .ok
 deriving Repr
+
+/-- an argument object that is not of the type the container expects: `$I(..)`, `$S(..)`, `$F(..)`, a Type object
+    (`Int`), `NULL`.  Every one of them makes `cast(obj, T)` raise ValueError (`type_of(NULL)` raises ValueError itself),
+    and so does the probe element's own `Assign` / `Cmp`, which casts its argument. -/
+inductive Wrong where
+  | int | str | float | type | null
+deriving DecidableEq, Repr, Inhabited
+
+/-- an argument of a call: a probe object with payload `p`, or a wrong-typed object -/
+inductive Arg where
+  | pay (p : Nat)
+  | wrong (w : Wrong)
+deriving DecidableEq, Repr, Inhabited
+
+/-- a refused call that did nothing to the contents -/
+def refused {α : Type} (x : α) (e : Exc) : Res α := { val := x, out := .raised e }
+
+/-- the payloads of the well-typed arguments before the first wrong-typed one, and — when there is one — the number of
+    arguments that follow it -/
+def goodPrefix : List Arg → List Nat × Option Nat
+  | [] => ([], none)
+  | .pay p :: r => (p :: (goodPrefix r).1, (goodPrefix r).2)
+  | .wrong _ :: r => ([], some r.length)
+
+def allGood (args : List Arg) : Bool := (goodPrefix args).2.isNone
+
+/-- the same for constructor pairs: the pairs before the first pair with a wrong-typed key or value -/
+def goodPairs : List (Arg × Arg) → List (Nat × Nat) × Bool
+  | [] => ([], true)
+  | (.pay k, .pay v) :: r => ((k, v) :: (goodPairs r).1, (goodPairs r).2)
+  | _ :: _ => ([], false)
 
 /-- `n` constructions in a row: `Array_Alloc(a, i); assign(Array_Item(a, i), src_i)` for the payloads `src` -/
 def mkFresh : Nat → List Nat → List Tok
@@ -232,6 +271,82 @@ def seqAssignFromMap (k : SeqKind) (xs : List Tok) (n : Nat) : Res (List Tok) :=
     | .list => { val := [], retired := xs, out := .raised .valueError }
     | .array => { val := List.replicate n Tok.raw, retired := xs, out := .raised .valueError }
 
+/-! ### Type-refused calls on sequences of probe elements
+
+Array.c and List.c never `cast` an element argument: the type check is the stored element's own `Assign` (`Cmp` for
+`rem`), reached after the container has made room for the new element. -/
+
+/-- List_Push, and List_Push_At once the index is accepted: `List_Alloc` (calloc), then `assign(item, obj)` raises — the
+    node is neither linked nor counted (it is lost: raw memory, not an element); the list is unchanged. -/
+def listPushWrong (xs : List Tok) : Res (List Tok) := refused xs .valueError
+
+/-- Array_Push: `nitems++`, Array_Reserve_More, Array_Alloc (zero-fill), then `assign` raises: the array is one
+    zero-filled, never constructed record longer (KF-C12-array-push-type). -/
+def arrayPushWrong (xs : List Tok) : Res (List Tok) := { val := xs ++ [Tok.raw], out := .raised .valueError }
+
+/-- Array_Push_At: the bounds check comes first (fix 1929a3d) and wins; past it `nitems++`, memmove, Array_Alloc, then
+    `assign` raises: a zero-filled record sits at the insertion point (KF-C12-array-push-type). -/
+def arrayPushAtWrong (xs : List Tok) (i : Int) : Res (List Tok) :=
+  let n : Int := xs.length
+  let j : Int := if i < 0 then (n + 1) + i else i
+  if j < 0 ∨ j > n then refused xs .indexOutOfBounds
+  else { val := xs.insertIdx j.toNat Tok.raw, out := .raised .valueError }
+
+/-- List_Push_At: index 0 needs no lookup, any other index goes through `List_At` (which raises first); then
+    `List_Alloc` and the raising `assign`: nothing is linked. -/
+def listPushAtWrong (xs : List Tok) (i : Int) : Res (List Tok) :=
+  if i = 0 then refused xs .valueError
+  else
+    let n : Int := xs.length
+    let j : Int := if i < 0 then n + i else i
+    if j < 0 ∨ j ≥ n then refused xs .indexOutOfBounds else refused xs .valueError
+
+/-- Array_Set / List_Set: the bounds check (`List_At`) first, then `assign` onto the stored element — the element's
+    `Assign` validates its argument before it touches itself: nothing changes. -/
+def seqSetWrong (xs : List Tok) (i : Int) : Res (List Tok) :=
+  let n : Int := xs.length
+  let j : Int := if i < 0 then n + i else i
+  if j < 0 ∨ j ≥ n then refused xs .indexOutOfBounds else refused xs .valueError
+
+/-- Array_Rem / List_Rem: `eq(item, obj)` on the first element raises (the element's `Cmp` casts its argument); on an
+    empty sequence the scan finds nothing — ValueError either way, nothing changes. -/
+def seqRemWrong (xs : List Tok) : Res (List Tok) := refused xs .valueError
+
+/-- List_Concat from a Tuple of argument objects: `List_Push` per item — the items before a wrong-typed one are
+    constructed and stay (KF-C12-list-concat-partial: ownership stays consistent), the wrong one raises as in
+    `listPushWrong`. -/
+def listConcatArgs (next : Nat) (xs : List Tok) (args : List Arg) : Res (List Tok) :=
+  let new := mkFresh next (goodPrefix args).1
+  match (goodPrefix args).2 with
+  | none => { val := xs ++ new, issued := new }
+  | some _ => { val := xs ++ new, issued := new, out := .raised .valueError }
+
+/-- Array_Concat from a Tuple: `nitems += len(obj)` and the realloc come first; per item Array_Alloc + assign.  A
+    wrong-typed item raises with its record zero-filled and the records of the items after it uninitialised (modelled
+    as zero-filled), all counted by `len` (KF-C12-array-push-type). -/
+def arrayConcatArgs (next : Nat) (xs : List Tok) (args : List Arg) : Res (List Tok) :=
+  let new := mkFresh next (goodPrefix args).1
+  match (goodPrefix args).2 with
+  | none => { val := xs ++ new, issued := new }
+  | some rest => { val := xs ++ new ++ List.replicate (rest + 1) Tok.raw, issued := new, out := .raised .valueError }
+
+/-- `construct_with(alloc(List), args)` with a wrong-typed initial element: List_New pushes item by item and raises at the
+    wrong one.  The caller never receives the half-built list; it is registered with the collector, which finalises it
+    (the harness deletes it at once): List_Clear destructs what was constructed.  Returned: the elements constructed —
+    all of them finalised again. -/
+def listNewRefused (next : Nat) (args : List Arg) : Res Unit :=
+  let new := mkFresh next (goodPrefix args).1
+  { val := (), issued := new, retired := new, out := .raised .valueError }
+
+/-- Array_New with a wrong-typed initial element: `nitems = len(args) - 1` and the `malloc` come first; the record of the
+    wrong element is zero-filled, the records after it are uninitialised memory (modelled as zero-filled), and Array_Del
+    — run by the collector on the half-built array — destructs all `nitems` records (known-finding territory
+    own-array-new-partial). -/
+def arrayNewRefused (next : Nat) (args : List Arg) : Res Unit :=
+  let new := mkFresh next (goodPrefix args).1
+  { val := (), issued := new, retired := new ++ List.replicate (((goodPrefix args).2.getD 0) + 1) Tok.raw,
+    out := .raised .valueError }
+
 /-! ### Array_Sort_By: quicksort, every exchange is a byte-wise `swap` -/
 
 def tokLt (a b : Tok) : Bool := a.pay < b.pay
@@ -329,6 +444,29 @@ def mapAssign (mk : MapKind) (next : Nat) (kvs : List KV) (src : List KV) : Res 
   let r := mapSetMany mk next [] (src.map (fun kv => (kv.1.pay, kv.2.pay)))
   { val := r.val, issued := r.issued, retired := kvToks kvs ++ r.retired, updated := r.updated }
 
+/-! ### Type-refused calls on maps
+
+Table_Set_Move and Tree_Set `cast` key and value to the map's key / value type before anything else; Table_Rem and
+Tree_Rem cast the key first.  (CelloGen/Own.lean `typeChecks`, Props/C05.lean `C05_type_check_first_*`.) -/
+
+/-- Table_Set / Tree_Set with a wrong-typed key or value: ValueError from the `cast` at the top, nothing allocated,
+    nothing assigned.  (Table_Set on a table with no slots first grows it to `Table_Ideal_Size(0)`: bytes only — the
+    structural shadow of the driver follows it.) -/
+def mapSetArgs (mk : MapKind) (next : Nat) (kvs : List KV) : Arg → Arg → Res (List KV)
+  | .pay k, .pay v => mapSet mk next kvs k v
+  | _, _ => refused kvs .valueError
+
+/-- Table_Rem / Tree_Rem with a wrong-typed key: ValueError from the `cast`, before the lookup -/
+def mapRemWrong (kvs : List KV) : Res (List KV) := refused kvs .valueError
+
+/-- `construct_with(alloc(Table / Tree), args)` where a key or value of some pair is wrong-typed: the pairs before it
+    are set (a repeated key replaces resp. assigns in place), the failing pair raises in `cast` before it allocates;
+    the half-built map is finalised by the collector (the harness deletes it at once): every stored key and value is
+    destructed. -/
+def mapNewRefused (mk : MapKind) (next : Nat) (args : List (Arg × Arg)) : Res Unit :=
+  let r := mapSetMany mk next [] (goodPairs args).1
+  { val := (), issued := r.issued, retired := r.retired ++ kvToks r.val, updated := r.updated, out := .raised .valueError }
+
 /-! ## Containers and the world of named containers -/
 
 inductive Cont where
@@ -365,6 +503,21 @@ def CKind.empty : CKind → Cont
   | .boxArr => .seq .array .box []
   | .boxLst => .seq .list .box []
 
+/-- a call whose element / key / value arguments are `Arg`s — at least one of them wrong-typed, or (concat,
+    constructors) arriving by a route the plain operations do not take: a Tuple as the source of `concat`,
+    `construct_with(alloc(T), args)` for the constructors -/
+inductive TCall where
+  | push (w : Wrong)                              -- push / append
+  | pushAt (i : Int) (w : Wrong)
+  | set (i : Int) (w : Wrong)
+  | rem (w : Wrong)
+  | concat (args : List Arg)                      -- concat(c, tuple(args…))
+  | mset (k v : Arg)
+  | mrem (w : Wrong)
+  | newSeq (k : SeqKind) (args : List Arg)        -- new(Array / List, Probe, args…)
+  | newMap (k : MapKind) (args : List (Arg × Arg))
+deriving Repr, Inhabited
+
 inductive Op where
   | new (c : Nat) (k : CKind)
   | newSeq (c : Nat) (k : SeqKind) (ps : List Nat)
@@ -387,6 +540,7 @@ inductive Op where
   | bassign (c d : Nat)
   | bref (c p : Nat)                    -- `ref(box, new(Probe, p))`: Box_Ref overwrites the pointer
   | read (c : Nat)                      -- len / iteration / get / mem / hash / eq: no ownership effect
+  | typed (c : Nat) (t : TCall)         -- a call with `Arg` arguments (wrong-typed element / key / value)
 deriving Repr, Inhabited
 
 structure World where
@@ -463,6 +617,52 @@ def withPointee (next : Nat) (p : Nat) (f : Tok → Res (List Tok)) : Res (List 
   | .ok => { r with issued := t :: r.issued }
   -- the call raised: the Box argument never reached the container, the caller deletes the pointee itself
   | .raised _ => { r with issued := t :: r.issued, retired := r.retired ++ [t] }
+
+/-- a call with `Arg` arguments on container `c` (containers of Box take any object: not applicable, `bad`) -/
+def stepTyped (w : World) (c : Nat) : TCall → World × Obs
+  | .push _ =>
+    match lookup w.objs c with
+    | some (.seq .array .probe xs) => commitSeq w c .array .probe (arrayPushWrong xs) [c]
+    | some (.seq .list .probe xs) => commitSeq w c .list .probe (listPushWrong xs) [c]
+    | _ => badOp w
+  | .pushAt i _ =>
+    match lookup w.objs c with
+    | some (.seq .array .probe xs) => commitSeq w c .array .probe (arrayPushAtWrong xs i) [c]
+    | some (.seq .list .probe xs) => commitSeq w c .list .probe (listPushAtWrong xs i) [c]
+    | _ => badOp w
+  | .set i _ =>
+    match lookup w.objs c with
+    | some (.seq k .probe xs) => commitSeq w c k .probe (seqSetWrong xs i) [c]
+    | _ => badOp w
+  | .rem _ =>
+    match lookup w.objs c with
+    | some (.seq k .probe xs) => commitSeq w c k .probe (seqRemWrong xs) [c]
+    | _ => badOp w
+  | .concat args =>
+    match lookup w.objs c with
+    | some (.seq .array .probe xs) => commitSeq w c .array .probe (arrayConcatArgs w.next xs args) [c]
+    | some (.seq .list .probe xs) => commitSeq w c .list .probe (listConcatArgs w.next xs args) [c]
+    | _ => badOp w
+  | .mset k v =>
+    match lookup w.objs c with
+    | some (.map mk kvs) => commitMap w c mk (mapSetArgs mk w.next kvs k v) [c]
+    | _ => badOp w
+  | .mrem _ =>
+    match lookup w.objs c with
+    | some (.map mk kvs) => commitMap w c mk (mapRemWrong kvs) [c]
+    | _ => badOp w
+  | .newSeq k args =>
+    if c ≥ maxConts ∨ (lookup w.objs c).isSome then badOp w
+    else if allGood args then
+      let new := mkFresh w.next (goodPrefix args).1
+      commitSeq w c k .probe { val := new, issued := new } [c]
+    else match k with
+      | .list => commit w c false none (listNewRefused w.next args) [c]
+      | .array => commit w c false none (arrayNewRefused w.next args) [c]
+  | .newMap k args =>
+    if c ≥ maxConts ∨ (lookup w.objs c).isSome then badOp w
+    else if (goodPairs args).2 then commitMap w c k (mapSetMany k w.next [] (goodPairs args).1) [c]
+    else commit w c false none (mapNewRefused k w.next args) [c]
 
 /-- One operation of an op file on the world.  Mirrors harness/h_own.c `run_op`: same admissibility rules
     (`bad`), same library calls. -/
@@ -587,6 +787,7 @@ def step (w : World) : Op → World × Obs
     match lookup w.objs c with
     | some x => commit w c x.isBox (some x) { val := () } [c]
     | none => badOp w
+  | .typed c t => stepTyped w c t
 
 /-- run a history; the observations in order -/
 def run : World → List Op → World × List Obs
@@ -603,8 +804,9 @@ def liveCount (w : World) : Nat := w.issuedLog.length - w.retiredLog.length
 
 /-! ## In-contract operations
 
-`noKnownFinding w op` excludes exactly the territory of the known findings (see the header) and the assignments that
-the code refuses *after* it has cleared the destination (a failed call that changed its receiver is C12's subject).
+`noKnownFinding w op` excludes exactly the territory of the known findings (see the header), the assignments that
+the code refuses *after* it has cleared the destination (a failed call that changed its receiver is C12's subject), and
+the type-refused calls that are not atomic (`typedAtomic`).
 `inContract w op` additionally requires that the operation is one the op-file interpreters execute at all: an
 ill-formed operation (a name that is not bound, `new` onto a bound name, an operation the container kind does not have,
 `concat(x, x)`) is answered `bad` by harness and model alike and does nothing — it is *outside* the contract, so that no
@@ -624,7 +826,29 @@ def crossRefused (w : World) (c d : Nat) : Bool :=
   | some (.seq _ _ _), some (.map _ src) => !src.isEmpty
   | _, _ => false
 
+/-- type-refused calls that are NOT atomic (the code makes room before the element's own type check runs):
+    Array_Push, Array_Push_At past its bounds check, Array_Concat and Array_New with a wrong-typed item — zero-filled /
+    uninitialised records counted by `len` (KF-C12-array-push-type, own-array-new-partial) —, and List_Concat when items
+    precede the wrong one (they stay: KF-C12-list-concat-partial). -/
+def typedAtomic (w : World) (c : Nat) : TCall → Bool
+  | .push _ =>
+    match lookup w.objs c with
+    | some (.seq .array _ _) => false
+    | _ => true
+  | .pushAt i _ =>
+    match lookup w.objs c with
+    | some (.seq .array _ xs) => (arrayPushAtWrong xs i).out == .raised .indexOutOfBounds
+    | _ => true
+  | .concat args =>
+    match lookup w.objs c with
+    | some (.seq .array _ _) => allGood args
+    | some (.seq .list _ _) => allGood args || (goodPrefix args).1.isEmpty
+    | _ => true
+  | .newSeq .array args => allGood args
+  | _ => true
+
 def noKnownFinding (w : World) : Op → Bool
+  | .typed c t => typedAtomic w c t
   | .concat _ d => !srcIsBox w d
   | .assign c d => c = d || (!srcIsBox w d && !crossRefused w c d)
   | .copy _ d => !srcIsBox w d
